@@ -31,6 +31,11 @@ theorem execMsg_custom {m : Msg} {s s' : State} (h : execMsg m s = some s') (hm 
     | setCustom url c => simp [keepsCustom, ha] at hm
     | govDeposit pid amt => rw [ha] at h; simp [addDepositGov, show depositGuardsModule = true from rfl] at h
     | govSubmit initial exp => rw [ha] at h; simp [submitGov, show depositGuardsModule = true from rfl] at h
+    | govSpend amt to =>
+      rw [ha] at h; simp only at h
+      split at h
+      · cases h
+      · cases h; rfl
 
 theorem execMsgs_custom : ∀ (ms : List Msg) (s s' : State), execMsgs ms s = some s' → noSetCustom ms = true → s'.custom = s.custom := by
   intro ms
